@@ -160,7 +160,7 @@ def write(sc, d, warm=None, out_name=None, shift=0):
     for nm in extra_forcing(sc):
         ivars[nm] = "float"
     out_iv = ["pid", "X", "Y", "Z"] + (["age"] if sc["age"] else []) + (["temp"] if sc["scalars"] else [])
-    conf = lab.base_conf(d, sc["start"] + shift, sim2time(sc, sc["nsteps"]) + shift, DT, sc["period"] * DT, str(d / "forcing_*.nc"),
+    conf = lab.base_conf(d, sc["start"] + shift, sim2time(sc, sc["nsteps"]) + shift, DT, sc["period"] * DT + int(sc.get("period_extra", 0)), str(d / "forcing_*.nc"),
                          advection=sc["scheme"], reversed_=sc["rev"], numrec=sc["numrec"], layout=sc["layout"],
                          extra_forcing=extra_forcing(sc),
                          ibm=dict(module=str(ibm_path), kill=sc["kill"], age=sc["age"], logfile=str(d / "ibm_log.json")),
